@@ -352,13 +352,30 @@ func dischargeSlice(ff *FuncFacts, sl *ssa.Slice) Discharge {
 
 // dischargeMake: the length is bounded by existing memory or by a dominating upper-bound fact on the un-converted value.
 func dischargeMake(ff *FuncFacts, mk *ssa.MakeSlice) Discharge {
-	t := ff.Term(mk.Len)
+	d := dischargeMakeOperand(ff, mk, mk.Len)
+	if !d.OK {
+		return d
+	}
+	if _, capC := mk.Cap.(*ssa.Const); !capC && mk.Cap != mk.Len {
+		if dc := dischargeMakeOperand(ff, mk, mk.Cap); !dc.OK {
+			dc.Need = "capacity: " + dc.Need
+			return dc
+		}
+	}
+	return d
+}
+
+func dischargeMakeOperand(ff *FuncFacts, mk *ssa.MakeSlice, operand ssa.Value) Discharge {
+	if _, isC := operand.(*ssa.Const); isC {
+		return Discharge{true, "constant", ""}
+	}
+	t := ff.Term(operand)
 	if lenDerived(t) {
 		return Discharge{true, "length derived from len() of existing data and non-negative constants", ""}
 	}
 	// len(X) − i with i a position inside X (i < len(X) is a dominating fact): between 1 and len(X)
 	if t.Op == "binop" && t.Sym == "-" && len(t.Args) == 2 && t.Args[0].Op == "call" && t.Args[0].Sym == "builtin:len" {
-		if nonNegative(t.Args[1], mk.Len.Type()) || isCounter(t.Args[1]) {
+		if nonNegative(t.Args[1], operand.Type()) || isCounter(t.Args[1]) {
 			if ok, why := factsEntailLE(ff.FactsAt(mk.Block()), t.Args[1], t.Args[0], 0); ok {
 				return Discharge{true, "length len(X) − i with " + why + ": between 0 and len(X)", ""}
 			}
